@@ -247,6 +247,38 @@ fn exhaustive_batch_sizes(name: &str, overfull: bool, seeds: u64) -> Part<Case> 
     }
 }
 
+/// Runs of EXACTLY k steps for k around 256, 512, 1024, 2048, 4096 with an instruction every few dozen steps:
+/// recorded histories that outgrow a pre-allocated capacity or a narrow step counter.
+fn exhaustive_step_counts(name: &str, max_k: usize) -> Part<Case> {
+    let ks: Vec<usize> = [255usize, 256, 257, 511, 512, 513, 1023, 1024, 1025, 2047, 2048, 2049, 4095, 4096, 4097].into_iter().filter(|k| *k <= max_k).collect();
+    let total = ks.len() as u64 * 2;
+    Part {
+        name: name.to_string(),
+        kind: PartKind::Exhaustive {
+            total,
+            decode: Box::new(move |i| {
+                let market = i % 2 == 1;
+                let k = ks[(i / 2) as usize];
+                let n_assets = if market { 2u8 } else { 1 };
+                let mut steps = vec![];
+                for j in 0..k {
+                    let mut instrs = vec![];
+                    if j % 37 == 0 || j + 3 >= k {
+                        let a = (j / 37) as u8 % n_assets;
+                        let bid = (j / 37) % 2 == 0;
+                        // resting orders on both sides, every third one crossing
+                        let price = if (j / 37) % 3 == 2 { if bid { 104 } else { 98 } } else if bid { 96 + 2 * ((j / 37) % 3) as u32 } else { 104 + 2 * ((j / 37) % 3) as u32 };
+                        instrs.push(Instr::New { asset: a, bid, vol: 1 + (j % 5) as u32, trader: 3, price: Some(price) });
+                    }
+                    steps.push(StepSpec { toggle: None, instrs });
+                }
+                Some(Case::Env(EnvCase { kind_assets: if market { 2 } else { 0 }, levels: 2, ticks: vec![2, 2], t0: 0, step_size: 10, trading: true, seed: k as u64 ^ crate::engine::verif_seed(), steps, drain: true, exact_vols: false }))
+            }),
+            description: format!("runs of exactly k steps for k in {{255, 256, 257, 511, 512, 513, 1023, 1024, 1025, 2047, 2048, 2049, 4095, 4096, 4097}} (up to {}) x {{Env<2>, MarketEnv<2,2>}}, one new order every 37 steps and in each of the last three steps", max_k),
+        },
+    }
+}
+
 pub fn parts(id: &'static str, tier: Tier) -> Option<(Vec<Part<Case>>, String)> {
     let common = "An environment case is a seed, a configuration (Env<L> for L in 1..24 or MarketEnv<A,L> for A in 1..4; tick sizes 1..10; step size) and a sequence of steps, each a batch of new-order / cancel / modify instructions whose order references are resolved at submission time (including orders created in the same batch), followed by two draining steps. ";
     match id {
@@ -286,7 +318,7 @@ pub fn parts(id: &'static str, tier: Tier) -> Option<(Vec<Part<Case>>, String)> 
             long.max_steps = 80;
             long.max_batch = 5;
             Some((
-                vec![exhaustive_batch_sizes("exhaustive-batch-sizes", false, 1), env_part("env-random-large-volumes", big_vol_cfg(&c, 24), tier.pick(15_000, 300_000)), env_part("env-random-long-runs", long, tier.pick(4_000, 100_000)), exhaustive_env_part("exhaustive-batches-of-3", 3, tier.pick(4, 24), false), env_part("env-random-submissions", c, tier.pick(150_000, 2_000_000))],
+                vec![exhaustive_step_counts("exhaustive-step-counts", tier.pick(1025, 4097)), exhaustive_batch_sizes("exhaustive-batch-sizes", false, 1), env_part("env-random-large-volumes", big_vol_cfg(&c, 24), tier.pick(15_000, 300_000)), env_part("env-random-long-runs", long, tier.pick(4_000, 100_000)), exhaustive_env_part("exhaustive-batches-of-3", 3, tier.pick(4, 24), false), env_part("env-random-submissions", c, tier.pick(150_000, 2_000_000))],
                 format!("{}Oracle: the complete observable state of the environment (live book snapshot per asset, every recorded series, cached level-2) is compared before and after EVERY submission and must be identical except for exactly one appended order record with status New; the cached level-2 must equal the live book's level-2 after construction, after every submission and after every step. Non-trivial: a submission that would trade or move the touch if applied directly, against a non-empty book.", common),
             ))
         }
@@ -309,7 +341,7 @@ pub fn parts(id: &'static str, tier: Tier) -> Option<(Vec<Part<Case>>, String)> 
             tog.w_new = 50;
             tog.max_batch = 6;
             Some((
- vec![exhaustive_batch_sizes("exhaustive-batch-sizes", false, tier.pick(1, 4)), env_part("env-random-toggles", tog, tier.pick(40_000, 600_000)), env_part("env-random-large-volumes", big_vol_cfg(&c, 24), tier.pick(15_000, 300_000)), env_part("env-random-very-long-runs", longer, tier.pick(600, 12_000)), env_part("env-random-long-runs", long, tier.pick(5_000, 120_000)), exhaustive_env_part("exhaustive-batches-of-3", 3, tier.pick(4, 24), false), env_part("env-random-records", c, tier.pick(200_000, 3_000_000))],
+ vec![exhaustive_step_counts("exhaustive-step-counts", tier.pick(2049, 4097)), exhaustive_batch_sizes("exhaustive-batch-sizes", false, tier.pick(1, 4)), env_part("env-random-toggles", tog, tier.pick(40_000, 600_000)), env_part("env-random-large-volumes", big_vol_cfg(&c, 24), tier.pick(15_000, 300_000)), env_part("env-random-very-long-runs", longer, tier.pick(600, 12_000)), env_part("env-random-long-runs", long, tier.pick(5_000, 120_000)), exhaustive_env_part("exhaustive-batches-of-3", 3, tier.pick(4, 24), false), env_part("env-random-records", c, tier.pick(200_000, 3_000_000))],
                 format!("{}Oracle: after step k every recorded series (touch prices, side volumes, touch volumes and counts, per-level volumes and counts for each of the L levels, per-step traded volume) has exactly k entries, entry k-1 equals the value read from the live book after the step (bid series vs bid getters), earlier entries are unchanged, and traded volume k-1 equals both the volume logged during the step and the volume of trades time-stamped within it. Non-trivial: a step whose book differs between bid and ask in total volume, touch volume and touch count and has an occupied level >= 1 on both sides.", common),
             ))
         }
